@@ -143,6 +143,10 @@ class BodyGen:
         typ = self.rng.choice(TYPES_LANG if self.lang_only else TYPES_ALL)
         c = {"name": self.uniq(rev, self.rng.choice(self.names + ["c", "val", "name"])), "type": typ,
              "nullable": True if nullable_only else self.rng.random() < 0.75}
+        if not self.lang_only and not add_column:
+            r = self.rng.random()
+            if r < 0.08:
+                c["index"] = True   # Column(index=True): create_table emits CREATE INDEX ix_<table>_<col> after the table
         if not self.lang_only and self.rng.random() < (0.5 if add_column else 0.3):
             d = self.gen_default(typ, constant_only=add_column)
             if d is not None:
@@ -155,9 +159,20 @@ class BodyGen:
         cols = [{"name": "id", "type": "Integer", "nullable": False}]
         if not self.lang_only and self.rng.random() < 0.5:
             cols[0]["pk"] = True
+        elif not self.lang_only and self.rng.random() < 0.15:
+            cols[0]["unique"] = True  # inline UNIQUE (id values are unique)
         for _ in range(self.rng.choice([0, 1, 2, 2, 3, 5])):
             cols.append(self.gen_col(rev))
-        return {"name": self.uniq(rev), "cols": cols}
+        t = {"name": self.uniq(rev), "cols": cols}
+        if not self.lang_only:
+            if self.rng.random() < 0.1:
+                t["checks"] = [{"text": self.rng.choice(["id >= 0", "id <> -1 AND id < 100000000", "id = id"]),
+                                "name": self.rng.choice([None, "ck_" + rev, "ck;odd name"])}]
+            fk_targets = [x for r in self.created.values() for x in r if "." not in x["name"] and x["cols"][0].get("pk")]
+            if fk_targets and self.rng.random() < 0.1:
+                cols.append({"name": self.uniq(rev, "ref"), "type": "Integer", "nullable": True,
+                             "fk": "%s.id" % self.rng.choice(fk_targets)["name"]})
+        return t
 
     def cols_of(self, table, anc, extra):
         cols = list(table["cols"])
@@ -232,6 +247,12 @@ class BodyGen:
         o = {"op": "execute", "text": txt}
         if not self.lang_only and rng.random() < 0.35:
             o["as_text"] = True  # op.execute(sa.text(...)) instead of a plain string
+        if not self.lang_only:
+            r = rng.random()
+            if r < 0.12:
+                o["execution_options"] = rng.choice([{"c12_marker": 1}, {"no_parameters": True}, {"stream_results": False}])
+            if rng.random() < 0.12:
+                o["via"] = "context"  # op.get_context().execute(...)
         return o
 
     def bulk(self, table, cols):
@@ -273,7 +294,7 @@ class BodyGen:
             if kind == "create" or not av:
                 t = self.gen_table(rev)
                 own.append(t)
-                up.append({"op": "create_table", "name": t["name"], "cols": t["cols"]})
+                up.append({"op": "create_table", "name": t["name"], "cols": t["cols"], "checks": t.get("checks", [])})
                 undo.append({"op": "drop_table", "name": t["name"]})
                 if rng.random() < 0.7:
                     up.append(self.bulk(t, t["cols"]))
@@ -293,7 +314,15 @@ class BodyGen:
                 ix = self.uniq(rev, rng.choice(["ix", "idx;1", "IX", "index"]))
                 unique = (not self.lang_only) and rng.random() < 0.1 and all(c["name"] == "id" for c in base[:1]) and k == 1
                 cs = ["id"] if unique else [c["name"] for c in rng.sample(base, k)]
-                up.append({"op": "create_index", "name": ix, "table": t["name"], "cols": cs, "unique": unique})
+                o = {"op": "create_index", "name": ix, "table": t["name"], "cols": cs, "unique": unique}
+                if not self.lang_only:
+                    r = rng.random()
+                    tx = [c for c in base if c["type"].split("(")[0] in ("Text", "String")]
+                    if r < 0.15 and tx:   # expression index: sa.text() element (util.sqla_compat._textual_index_column)
+                        o["cols"] = [{"expr": "lower(%s)" % sql_ident(rng.choice(tx)["name"])}] + (["id"] if rng.random() < 0.5 else [])
+                    elif r < 0.3:         # partial index
+                        o["where"] = rng.choice(["id > 3", "id IS NOT NULL", "id % 2 = 0"])
+                up.append(o)
                 undo.append({"op": "drop_index", "name": ix, "table": t["name"]})
             elif kind == "bulk":
                 up.append(self.bulk(t, cols))
@@ -301,8 +330,13 @@ class BodyGen:
                 up.append(self.gen_execute(t, cols))
             elif kind == "temp":
                 tt = self.gen_table(rev)
-                up.append({"op": "create_table", "name": tt["name"], "cols": tt["cols"]})
+                up.append({"op": "create_table", "name": tt["name"], "cols": tt["cols"], "checks": tt.get("checks", [])})
                 up.append(self.bulk(tt, tt["cols"]))
+                if not self.lang_only and rng.random() < 0.35 and not any(c.get("index") for c in tt["cols"]):
+                    new = self.uniq(rev, rng.choice(["renamed", "re named", "Re;named"]))
+                    up.append({"op": "rename_table", "name": tt["name"], "new": new})
+                    tt = dict(tt, name=new)
+                    up.append(self.bulk(tt, tt["cols"]))
                 if rng.random() < 0.5:
                     ix = self.uniq(rev, "tix")
                     up.append({"op": "create_index", "name": ix, "table": tt["name"], "cols": ["id"], "unique": False})
@@ -399,21 +433,22 @@ def in_language(ops):
     for o in flat_ops(ops):
         k = o["op"]
         if k == "create_table":
-            if any(c.get("pk") or c.get("default") or c["type"] not in TYPES_LANG for c in o["cols"]):
+            if o.get("checks") or any(c.get("pk") or c.get("default") or c.get("index") or c.get("unique") or c.get("fk")
+                                      or c["type"] not in TYPES_LANG for c in o["cols"]):
                 return False
         elif k == "add_column":
             if o["col"].get("pk") or o["col"].get("default") or o["col"]["type"] not in TYPES_LANG:
                 return False
         elif k == "create_index":
-            if o.get("unique"):
+            if o.get("unique") or o.get("where") or any(isinstance(c, dict) for c in o["cols"]):
                 return False
         elif k == "bulk_insert":
-            if any(c["type"] not in TYPES_LANG for c in o["cols"]):
+            if o.get("malformed") or any(c["type"] not in TYPES_LANG for c in o["cols"]):
                 return False
             if any(v["k"] not in ("null", "int", "str") for r in o["rows"] for v in r.values()):
                 return False
         elif k == "execute":
-            if ":" in o["text"] or o.get("as_text"):  # text()'s colon handling is not modelled
+            if ":" in o["text"] or o.get("as_text") or o.get("via") or o.get("execution_options"):  # text()'s colon handling is not modelled
                 return False
         elif k in ("drop_table", "drop_index"):
             pass
